@@ -33,6 +33,8 @@ var c11d11bFuncs = []c11d11bFn{
 	{"coalescelist", "CoalesceListFunc", stdlib.CoalesceListFunc},
 	{"compact", "CompactFunc", stdlib.CompactFunc},
 	{"range", "RangeFunc", stdlib.RangeFunc},
+	{"chunklist", "ChunklistFunc", stdlib.ChunklistFunc},
+	{"index", "IndexFunc", stdlib.IndexFunc},
 	{"signum", "SignumFunc", stdlib.SignumFunc},
 	{"ceil", "CeilFunc", stdlib.CeilFunc},
 	{"floor", "FloorFunc", stdlib.FloorFunc},
